@@ -59,3 +59,8 @@ add('C12', 'exploration', 'last-writer-wins reference-model monitor over generat
     'Generated histories over five handle kinds are executed through the public API; after every step the target (and another one) is called and compared with a reference model that asserts only what the statement fixes (later Apply wins, later Return/When after Apply wins, clauses accumulate across lookups, nothing survives Cancel/Reset, Pkg applies to one lookup). Sampled over histories.',
     'Return issued directly after a When chain (chain state extends that clause) is not generated: the statement does not settle it. Both continued and fresh sequence semantics are accepted for repeated Return.',
     'DESIGN.md 2 C12')
+
+add('C13', 'exploration', 'before/after state monitor (behaviour fingerprint, whole text image, interface words) around every generated ill-formed configuration call',
+    'Every single-slot corruption of callback signatures, too-few When/Return arguments, size-mismatching return values, unknown names and wrong Interface arguments is applied to unmocked and already-mocked targets; the monitor requires a panic/error with a consistently walkable cause chain, and behaviour, the complete executable image and the interface variable equal to their state before the rejected call, and a correct configuration to work right afterwards. The mistake list is enumerated completely for the 7 targets; signatures are sampled by those targets.',
+    'Granularity is one API call; When()/Return() with no argument at all is not a mistake the statement names.',
+    'DESIGN.md 2 C13')
